@@ -76,6 +76,11 @@ def configs(tier):
     return out
 
 
+def warm_of(cfg):
+    which, pre, t, inc, ex, fv = cfg
+    return (len(pre) + len(ex) + len(t)) % 2 == 1
+
+
 def run_config(cfg):
     which, pre, t, inc, ex, fv = cfg
     D = Driver(timeout_ms=10000, max_paths=4000, max_seconds=120)
@@ -89,6 +94,9 @@ def run_config(cfg):
 
     def path():
         m, s, o = make_sector()
+        if warm_of(cfg):
+            # the sector already has an (income) flow on its books when the exclusions are registered
+            s.AddCashFlow('w0', is_income=True)
         for e in ex:
             if e.startswith('other:'):
                 m.AddCashFlowIncomeExclusion(o, e.split(':')[1])
@@ -181,9 +189,13 @@ def hist_chunk(seqs):
     for seq, flags, ex in seqs:
         m, s, o = make_sector()
         for e in ex:
-            m.AddCashFlowIncomeExclusion(s, e)
+            if isinstance(e, str):
+                m.AddCashFlowIncomeExclusion(s, e)
         try:
-            for t, inc in zip(seq, flags):
+            for i, (t, inc) in enumerate(zip(seq, flags)):
+                for e in ex:
+                    if not isinstance(e, str) and e[0] == i:
+                        m.AddCashFlowIncomeExclusion(s, e[1])        # registered between two flows: in force for the flows that follow
                 s.AddCashFlow(t, is_income=inc)
         except Exception as e:
             bad.append((seq, flags, ex, 'raises %r' % (e,)))
@@ -191,10 +203,10 @@ def hist_chunk(seqs):
         n += 1
         wantF = env('LAG_F')
         wantI = z3.RealVal(0)
-        for t, inc in zip(seq, flags):
+        for j, (t, inc) in enumerate(zip(seq, flags)):
             v = to_z3(t, env)
             wantF = wantF + v
-            if inc and unsigned(t) not in ex:
+            if inc and unsigned(t) not in [e if isinstance(e, str) else e[1] for e in ex if isinstance(e, str) or e[0] <= j]:
                 wantI = wantI + v
         try:
             gotF = to_z3(s.EquationBlock['F'].RHS(), env)
@@ -219,7 +231,9 @@ def histories(tier):
             for flags in itertools.product((True, False), repeat=n):
                 if n == 3 and flags not in ((True, True, True), (True, False, True), (False, True, False)):
                     continue
-                for ex in ((), ('x',)):
+                for ex in ((), ('x',)) + ((((1, 'y'),), ('x', (1, 'y')), ((1, 'x'), (2, 'y'))) if n >= 2 else ()):
+                    if any(not isinstance(e, str) and e[0] >= n for e in ex):
+                        continue
                     out.append((seq, flags, ex))
     return out
 
@@ -293,10 +307,11 @@ def reg_chunk(cases):
 REPLAY_STEP = '''
 import sys
 from fractions import Fraction as F
-from vf.props.c06 import make_sector, unsigned, BUILT
+from vf.props.c06 import make_sector, unsigned, BUILT, warm_of
 which, pre, t, inc, ex, fv = %(cfg)r
 cs = %(cs)r
 m, s, o = make_sector()
+if warm_of(%(cfg)r): s.AddCashFlow('w0', is_income=True)
 for e in ex:
     if e.startswith('other:'): m.AddCashFlowIncomeExclusion(o, e.split(':')[1])
     elif e.startswith('twin:'): m.AddCashFlowIncomeExclusion(m.Twin, e.split(':')[1])
@@ -320,7 +335,7 @@ import random
 rnd = random.Random(5); bad = False
 counts = inc and name not in [e for e in ex if ':' not in e]
 for i in range(5):
-    env = {n: rnd.uniform(0.5, 3.0) for n in ('x', 'y', 'A__x', 'LAG_F', 'q', 'z')}
+    env = {n: rnd.uniform(0.5, 3.0) for n in ('x', 'y', 'A__x', 'LAG_F', 'q', 'z', 'w0')}
     ev = lambda tx: eval(tx, {}, env)
     if abs(ev(aF) - (ev(bF) + ev(t))) > 1e-9 * (1 + abs(ev(aF))): bad = True; print('F not increased by the flow at', env)
     if abs(ev(aI) - (ev(bI) + (ev(t) if counts else 0.0))) > 1e-9 * (1 + abs(ev(aI))): bad = True; print('INC wrong at', env)
@@ -371,7 +386,7 @@ def run(tier, seed):
     chk.assumptions = ['income exclusions are registered before the flows they concern (the exclusion list is consulted when a flow is registered; an exclusion added afterwards is not retroactive - documented behaviour, not claimed)', 'names used as divisors are non-zero', "don't-care: a prior definition spelled as a zero literal other than the rendered '0.0' "
                        "(e.g. '0.') may be kept or replaced", 'an exclusion is in force for flows registered after it (pre-state of the step)',
                        'a defining expression is passed only with a single local name as the flow term']
-    chk.outside = ['flow terms with more than one operator', 'exclusions registered after the flow they name']
+    chk.outside = ['flow terms with more than one operator', 'exclusions registered after the flow they name (exclusions registered BETWEEN flows are covered: in force for the flows that follow)']
     n = 48
     for st, lst in pmap(chunk, [cfgs[i::n] for i in range(n)]):
         if st != 'ok':
